@@ -4,6 +4,7 @@ Events (kind, pnum, a, b, c) in global sequence order:
   5/6 wait begin/end(kcol, jcol)    7 busy-supernode read(fsupc, krep, jcol)     8 new supernode number(i)
   9 lusup alloc(jcol, num, prev)    10 pivot(col, pivrow, panel)  11 worker exit(singular)  12/13 prune begin/end(col, panel)
   14 dfs read(krep, kperm, jcol)    15 etree(i, parent, size)  16 panel(i, type, ukids)  17 init(tasks_remain, qcount, n)
+  18 slot table(leader column | n, start | total, dynamic?)
 Returns a list of rule-violation strings (empty = all clauses of C03/C04 that the log can express hold)."""
 
 
@@ -73,6 +74,18 @@ def check(events, nprocs):
     for j, s in chain_sets.items():
         both = set(s) & dfs_sets.get(j, set())
         if both: bad.append("panel %d: supernode(s) %s updated both by DFS and by the pipeline wait" % (j, sorted(both)[:4]))
+    # C05: every L-supernode allocation stays inside the slot PresetMap reserved (static mode)
+    slots = sorted((a, b) for (k, p, a, b, c) in events if k == 18 and c == 0)
+    if slots and not any(c != 0 for (k, p, a, b, c) in events if k == 18):
+        import bisect
+        leaders = [a for a, b in slots]; starts = [b for a, b in slots]
+        for (k, p, a, b, c) in events:
+            if k == 9:
+                i = bisect.bisect_right(leaders, a) - 1
+                if i < 0 or i + 1 >= len(leaders):
+                    bad.append("LUSUP allocation for column %d outside the slot table" % a); continue
+                if c < starts[i] or c + b > starts[i + 1]:
+                    bad.append("LUSUP slot overrun: column %d requests [%d,%d) but the slot of H-supernode %d is [%d,%d)" % (a, c, c + b, leaders[i], starts[i], starts[i + 1]))
     # pipeline rule at each take
     anc_path = {}
     for j in panels:
